@@ -239,9 +239,11 @@ structure LoopState where
   prev : Kind
   perow : Int
   pecol : Int
+  /-- `line_is_open`: the last token processed to the end of the loop body is neither NEWLINE nor NL -/
+  lineOpen : Bool
   deriving DecidableEq, Repr, Inhabited
 
-def LoopState.init : LoopState := ⟨.indent, -1, 0⟩
+def LoopState.init : LoopState := ⟨.indent, -1, 0, false⟩
 
 /-- `previous_token in (INDENT, DEDENT, NEWLINE)` -/
 def Kind.opensStmt : Kind → Bool
@@ -266,13 +268,16 @@ def nextPrev (p k : Kind) : Kind :=
 absence then raises IndexError, see `loopRaises`). -/
 def step (st : LoopState) (t : Token) (next : Option Kind) : LoopState × Emit :=
   let pecol := if t.srow > st.perow then 0 else st.pecol
-  let pad := (t.scol - pecol).toNat
-  let after (ecol : Int) : LoopState := ⟨nextPrev st.prev t.kind, t.erow, ecol⟩
+  -- explicit line joining (backslash): one space keeps the two tokens apart (repair 55c4b14)
+  let joint : Nat := if t.srow > st.perow ∧ st.lineOpen = true then 1 else 0
+  let pad := joint + (t.scol - pecol).toNat
+  let after (ecol : Int) : LoopState :=
+    ⟨nextPrev st.prev t.kind, t.erow, ecol, !(t.kind == .newline || t.kind == .nl)⟩
   if t.kind = .comment then
     let r := normalizeComment t.str
     if r.2 = 0 then
       -- `continue`: the column reset persists, nothing else is updated
-      (⟨st.prev, st.perow, pecol⟩, ⟨pad, .dropped⟩)
+      (⟨st.prev, st.perow, pecol, st.lineOpen⟩, ⟨pad, .dropped⟩)
     else (after t.ecol, ⟨pad, .hint r.1⟩)
   else if t.kind = .string ∧ st.prev.opensStmt = true ∧ next = some .newline then
     (after t.ecol, ⟨pad, .pass⟩)
